@@ -124,6 +124,19 @@ CLAIMED = {
         note="A4 lru_cache semantics; eviction is irrelevant to soundness; known findings D16 (Parameter root through "
              "_compile_cached), D1",
         design="6 C14"),
+    "C15": dict(
+        text="Every iterative routine shares the contract of its recursive twin (same clauses, same spec functions), so callers "
+             "(gradient, compile_expression, compute_degree, get_all_variables) are proved against one contract whichever twin runs, "
+             "for every threshold value. Layer 2: for each node kind x phase the real statements of the while-loop body of "
+             "_build_evaluator_iterative, _gradient_iterative, _compute_degree_iterative and _get_variables_iterative are executed "
+             "symbolically once, with the children's stack entries assumed to meet the twin's contract, and the entry produced must "
+             "meet that contract for the node (block lemmas, all inputs). The composition of blocks into a post-order traversal "
+             "(stack discipline) is an informal induction stated in DESIGN.md and is covered only by the bounded twin comparison.",
+        note="proved: block lemmas per node kind/phase + the recursive twins; bounded (never counted as proved): traversal glue, "
+             "checked natively on focus trees of depth<=3 and accumulations of up to 900 terms; _estimate_tree_depth trusted (only "
+             "selects between twins with the same contract); RecursionError / interpreter stack depth is not modelled (A8); known "
+             "findings D18, D19, D8, D6, D7, D2, D1",
+        design="6 C15"),
     "C19": dict(
         text="_sanitize_derivatives is proved over an extended-real abstraction of arrays (class finite/NaN/+Inf/-Inf per entry): "
              "every entry finite afterwards, finite entries unchanged, NaN -> 0, +-Inf -> +-1e16; and for every closure returned by "
